@@ -439,6 +439,29 @@ fn strip_aggs(e: &E) -> E {
     }
 }
 
+/// The executable domain of IS / IS NOT (applied to every expression of an executed statement):
+///  * a plain boolean on the right is written as the keyword in both modes (`x IS ?` with a bound boolean is the known finding
+///    `is-with-bound-boolean`, demonstrated by its own reproducer; the search does not have to rediscover it);
+///  * any other constant right operand becomes NULL (see strip_aggs: SQLite folds constants into the truth test).
+fn exec_is(e: &E) -> E {
+    match e {
+        E::Bin(l, op @ (Op::Is | Op::IsNot), r) => {
+            let mut inner: &E = r;
+            while let E::AsEnum(x) = inner {
+                inner = x;
+            }
+            let r2 = match inner {
+                E::Bool(b) | E::ConstBool(b) => E::ConstBool(*b),
+                E::Null => E::Null,
+                other if !has_column(other) => E::Null,
+                _ => exec_is(r),
+            };
+            E::Bin(Box::new(exec_is(l)), *op, Box::new(r2))
+        }
+        other => other.map_children(&mut |_, c| exec_is(c)),
+    }
+}
+
 fn has_column(e: &E) -> bool {
     matches!(e, E::Col(_) | E::TCol(_) | E::QCol(..) | E::AliasRef(_) | E::Exists | E::ScalarSub | E::InSub { .. }) || e.children().iter().any(|c| has_column(c))
 }
@@ -449,6 +472,10 @@ fn has_agg(e: &E) -> bool {
 
 /// rewrite column references to the given scope of qualifiers
 fn rescope(e: &E, scope: &[u8]) -> E {
+    rescope_inner(&exec_is(e), scope)
+}
+
+fn rescope_inner(e: &E, scope: &[u8]) -> E {
     match e {
         E::Col(_) | E::TCol(_) if scope.is_empty() => E::Int(1),
         E::Col(c) | E::TCol(c) => {
@@ -467,11 +494,11 @@ fn rescope(e: &E, scope: &[u8]) -> E {
         }
         E::AliasRef(_) | E::Star => E::Int(2),
         // MATCH needs an application-defined function: not executable
-        E::Bin(l, Op::SqMatch, r) => E::Bin(Box::new(rescope(l, scope)), Op::SqGlob, Box::new(rescope(r, scope))),
+        E::Bin(l, Op::SqMatch, r) => E::Bin(Box::new(rescope_inner(l, scope)), Op::SqGlob, Box::new(rescope_inner(r, scope))),
         // `->` / `->>` raise "malformed JSON" at run time on non-JSON operands; whether a row reaches them depends on
         // the engine's short-circuiting of constant conditions, which differs between literal and bound operands
-        E::Bin(l, Op::SqGetJson | Op::SqCastJson, r) => E::Bin(Box::new(rescope(l, scope)), Op::Sub, Box::new(rescope(r, scope))),
-        other => other.map_children(&mut |_, c| rescope(c, scope)),
+        E::Bin(l, Op::SqGetJson | Op::SqCastJson, r) => E::Bin(Box::new(rescope_inner(l, scope)), Op::Sub, Box::new(rescope_inner(r, scope))),
+        other => other.map_children(&mut |_, c| rescope_inner(c, scope)),
     }
 }
 
@@ -833,7 +860,9 @@ fn fix_select_exec_n(s: &mut SelectSpec, o: ExecOpts, allow_with: bool, arity: O
             .map(|od| {
                 let e = fx(&od.e);
                 let e = if grouped { wrap(e, &s.groups) } else { strip_aggs(&e) };
-                OrdSpec { e: not_positional(e), dir: od.dir.clone(), nulls: od.nulls }
+                // FIELD order combined with NULLS FIRST/LAST is the known cross-backend divergence `mysql/field-order-with-nulls`
+                // (its reproducer is replayed on every run): not generated in the portable subset
+                OrdSpec { e: not_positional(e), dir: od.dir.clone(), nulls: if o.portable && matches!(od.dir, Dir::Field(_)) { None } else { od.nulls } }
             })
             .collect();
         if s.limit.is_some() || s.offset.is_some() || !orders.is_empty() {
@@ -979,7 +1008,7 @@ pub fn fix_exec(s: &mut Stmt, o: ExecOpts) {
                         r.resize(i.columns.len(), E::Int(0));
                         for e in r.iter_mut() {
                             // VALUES rows cannot reference columns
-                            *e = strip_cols(&strip_aggs(&px(e)));
+                            *e = exec_is(&strip_cols(&strip_aggs(&px(e))));
                         }
                     }
                 }
